@@ -22,7 +22,8 @@ Definition norm_refine (refine_num : Z) (refine_rounds : option Z) : Z * Z :=
 
 Record run_opts := mkRunOpts {
   ro_merge : cname; ro_refine_merge : cname; ro_tol : float; ro_thr : float; ro_bf : Z;
-  ro_change : float; ro_refine_num : Z; ro_refine_rounds : option Z; ro_recluster_rounds : Z
+  ro_change : float; ro_refine_num : Z; ro_refine_rounds : option Z; ro_recluster_rounds : Z;
+  ro_save_tree : bool
 }.
 
 (* the API calls `bb run` makes, in order *)
@@ -32,7 +33,8 @@ Inductive api_call :=
 | ASetMerge (nm : cname) (tol thr : float)
 | ARefine (n_largest : Z)
 | ARecluster
-| ASave.
+| ASaveTree                                            (* tree.save(out_dir / 'bitbirch.pkl') *)
+| ASave.                                               (* the clusters / centroids are read out *)
 Definition run_plan (o : run_opts) (nfiles : nat) : list api_call :=
   let '(num, rounds) := norm_refine (ro_refine_num o) (ro_refine_rounds o) in
   [ACtor (ro_merge o) (ro_tol o) (ro_thr o) (ro_bf o)]
@@ -42,6 +44,7 @@ Definition run_plan (o : run_opts) (nfiles : nat) : list api_call :=
         ++ repeat (ARefine num) (Z.to_nat rounds)
         ++ repeat ARecluster (Z.to_nat (ro_recluster_rounds o))
       else [])
+  ++ (if ro_save_tree o then [ASaveTree] else [])
   ++ [ASave].
 
 Section WithExp.
